@@ -108,20 +108,34 @@ func verifC16WellFormed(data *Data, what string) {
 }
 
 // verifC16TwoGroups: create a group at t1, optionally change the shard-group duration, create a group at t2.
-func verifC16TwoGroups(changeDuration bool) {
+func verifC16TwoGroups(changeDuration bool) { verifC16TwoGroupsAt(changeDuration, false) }
+
+// verifC16MaxSec/Nsec: the largest valid timestamp (models.MaxNanoTime) as (seconds, nanoseconds).
+const verifC16MaxSec, verifC16MaxNsec = 9223372036, 854775806
+
+func verifC16TwoGroupsAt(changeDuration, endOfTime bool) {
 	d1 := verifC16Durations[verifrt.Choose("d1", 3)]
 	verifC16Base = verifC16Bases[0]
-	if verifrt.Tier() > 0 {
+	if endOfTime {
+		verifC16Base = verifC16MaxSec - 1000000 // the window reaches past the last valid timestamp
+	} else if verifrt.Tier() > 0 {
 		verifC16Base = verifC16Bases[verifrt.Choose("base", len(verifC16Bases))]
 	}
 	data := verifC16Catalogue(d1)
 	t1 := verifC16Instant("t1", verifC16Base)
+	if endOfTime { // only valid timestamps are ever written
+		verifrt.Assume(t1.Unix() < verifC16MaxSec || (t1.Unix() == verifC16MaxSec && t1.Nanosecond() <= verifC16MaxNsec))
+	}
 	err := data.CreateShardGroup("db", "rp", t1, util.Hot, config.TSSTORE, 0)
 	verifrt.Assert(err == nil, "CreateShardGroup(t1) failed")
 	verifC16WellFormed(data, "after first group")
 	g1, _ := data.ShardGroupByTimestampAndEngineType("db", "rp", t1, config.TSSTORE)
 	verifrt.Assert(g1 != nil && g1.Contains(t1), "group created for t1 does not contain t1")
-	verifrt.Assert(g1.EndTime.Sub(g1.StartTime) == d1, "group span differs from the shard-group duration")
+	if !endOfTime {
+		verifrt.Assert(g1.EndTime.Sub(g1.StartTime) == d1, "group span differs from the shard-group duration")
+	} else if g1.EndTime.Sub(g1.StartTime) != d1 {
+		verifrt.Reach("clamped")
+	}
 	maxSG, maxShard := data.MaxShardGroupID, data.MaxShardID
 	if changeDuration {
 		d2 := verifC16Durations[verifrt.Choose("d2", 3)]
@@ -133,6 +147,9 @@ func verifC16TwoGroups(changeDuration bool) {
 		verifrt.Reach("changed")
 	}
 	t2 := verifC16Instant("t2", verifC16Base)
+	if endOfTime {
+		verifrt.Assume(t2.Unix() < verifC16MaxSec || (t2.Unix() == verifC16MaxSec && t2.Nanosecond() <= verifC16MaxNsec))
+	}
 	err = data.CreateShardGroup("db", "rp", t2, util.Hot, config.TSSTORE, 0)
 	verifrt.Assert(err == nil, "CreateShardGroup(t2) failed")
 	verifC16WellFormed(data, "after second group")
@@ -149,6 +166,11 @@ func verifC16TwoGroups(changeDuration bool) {
 }
 
 func VerifC16TwoGroups() { verifC16TwoGroups(false) }
+
+// VerifC16EndOfTime: the same step at the end of the time line, where the last group is clamped to the
+// largest valid timestamp: it must still contain every valid timestamp, and a second request for it must
+// find it instead of creating an overlapping twin.
+func VerifC16EndOfTime() { verifC16TwoGroupsAt(false, true) }
 
 // VerifC16DurationChangeFinding re-derives the listed finding: after ALTER RETENTION POLICY ... SHARD DURATION the
 // next group is aligned to the new duration and can overlap an existing one.
